@@ -547,6 +547,9 @@ impl DrawState {
         let mut real_height = VisualLines::default();
         // Whether the line written last is printed text rather than a bar
         let mut text_pending = false;
+        // In move-cursor mode rows are overwritten, not cleared: what a shorter line would leave
+        // of its row's previous content is blanked together with the line's newline
+        let mut pending_pad = 0;
 
         for (idx, line) in self.lines.iter().enumerate() {
             let line_height = line.wrapped_height(term_width);
@@ -558,7 +561,7 @@ impl DrawState {
                     // Printed text is always ended by a newline, also when not even the
                     // first bar line fits below it
                     if text_pending {
-                        term.write_line("")?;
+                        term.write_line(&" ".repeat(pending_pad))?;
                     }
                     break;
                 }
@@ -569,18 +572,20 @@ impl DrawState {
             // Print a new line if this is not the first line printed this tick
             // the first line will automatically wrap due to the filler below
             if idx != 0 {
-                term.write_line("")?;
+                term.write_line(&" ".repeat(pending_pad))?;
             }
 
             term.write_str(line.as_ref())?;
             text_pending = !matches!(line, LineType::Bar(_));
 
+            let filler =
+                (line_height.as_usize() * term_width).saturating_sub(line.console_width());
             if idx + 1 == self.lines.len() {
                 // For the last line of the output, keep the cursor on the right terminal
                 // side so that next user writes/prints will happen on the next line
-                let last_line_filler =
-                    (line_height.as_usize() * term_width).saturating_sub(line.console_width());
-                term.write_str(&" ".repeat(last_line_filler))?;
+                term.write_str(&" ".repeat(filler))?;
+            } else if self.move_cursor {
+                pending_pad = filler;
             }
         }
 
